@@ -892,6 +892,8 @@ class PyCdlib:
         splitpath = utils.split_path(joliet_path)
         name = splitpath.pop()
 
+        if not name:
+            raise pycdlibexception.PyCdlibInvalidInput('Joliet names must be at least 1 character long')
         if len(name) > 64:
             raise pycdlibexception.PyCdlibInvalidInput('Joliet names can be a maximum of 64 characters')
         parent = self._find_joliet_record(b'/' + b'/'.join(splitpath))
